@@ -88,6 +88,12 @@ async fn run_storm(a: &Args, m: &mut mon::Mon) {
                     }
                 }
             }
+            if k == 300 && matches!(a.prop.as_str(), "C02" | "C01" | "C06") && world_no % 2 == 0 {
+                // a bank is wiped out by bad debt half-way through (ledger / solvency exception / accrual on a dead bank)
+                w.refresh_oracles();
+                let lender = s.liquidator;
+                let _ = scen::wipeout(&mut w, m, &mut r, s.g, lender).await;
+            }
             s.step(&mut w, m).await;
             if t0.elapsed() >= a.budget {
                 break;
@@ -174,6 +180,9 @@ async fn run_scen(a: &Args, m: &mut mon::Mon) {
                         m.r.count("scen.withdraw_boundary_found");
                         let i = w.ix_withdraw(acct, ca, ak, ta, x, None);
                         let _ = w.exec(m, &[i], &[&auth]).await;
+                    }
+                    if r.gen_bool(0.5) {
+                        scen::age_boundary(&mut w, m, &lev).await;
                     }
                     match r.gen_range(0..3) {
                         0 => scen::liquidation(&mut w, m, &mut r, &lev, lq).await,
